@@ -96,6 +96,25 @@ def report(ctx, prefix, failures, passing, primary, minor, describe):
     symptoms listed), the others under `<prefix>:<symptom>:<minimal shape>`."""
     keys = []
     cells = {}
+    # failures that all stem from one statement form (e.g. a SELECT preceded by a comment, which the proxy's lexer does
+    # not recognise as a SELECT) are one cause whatever their symptom: report them under the form
+    byform = {}
+    rest = {}
+    for what, items in failures.items():
+        for it in items:
+            f = it[0].get("form")
+            if f == "leading-comment":
+                byform.setdefault(f, []).append((what, it))
+            else:
+                rest.setdefault(what, []).append(it)
+    for f, lst in sorted(byform.items()):
+        key = "%s:select-form-not-recognised:form=%s" % (prefix, f)
+        whats = sorted({w for w, _ in lst})
+        d0, text, replay = lst[0][1]
+        ctx.violation(key, "a SELECT written as `%s` is not treated as a SELECT (%d exchanges; symptoms: %s; first: %s)" % (
+            f, len(lst), ", ".join(whats), text), replay={"form": f, "symptoms": whats, "first": replay})
+        keys.append(key)
+    failures = rest
     for what in sorted(failures):
         items = failures[what]
         fd = [d for d, _, _ in items]
